@@ -193,29 +193,28 @@ Proof.
 Qed.
 
 (* ---- equality up to unrolling and merging ----------------------------------------------------------- *)
-Definition simc (a b : circ) : Prop := fuse (flatten0 a) = fuse (flatten0 b).
 
-Lemma simc_refl : forall a, simc a a. Proof. reflexivity. Qed.
-Lemma simc_sym : forall a b, simc a b -> simc b a. Proof. unfold simc. intros. congruence. Qed.
-Lemma simc_trans : forall a b c, simc a b -> simc b c -> simc a c. Proof. unfold simc. intros. congruence. Qed.
+Lemma simc_refl : forall a, sim a a. Proof. reflexivity. Qed.
+Lemma simc_sym : forall a b, sim a b -> sim b a. Proof. unfold sim. intros. congruence. Qed.
+Lemma simc_trans : forall a b c, sim a b -> sim b c -> sim a c. Proof. unfold sim. intros. congruence. Qed.
 
-Lemma simc_app : forall a a' b b', simc a a' -> simc b b' -> simc (a ++ b) (a' ++ b').
-Proof. unfold simc. intros. rewrite !flatten0_app. apply fuse_app_congr; assumption. Qed.
+Lemma simc_app : forall a a' b b', sim a a' -> sim b b' -> sim (a ++ b) (a' ++ b').
+Proof. unfold sim. intros. rewrite !flatten0_app. apply fuse_app_congr; assumption. Qed.
 
-Lemma simc_rep : forall n a a', simc a a' -> simc [Rep n a] [Rep n a'].
+Lemma simc_rep : forall n a a', sim a a' -> sim [Rep n a] [Rep n a'].
 Proof.
-  unfold simc. intros n a a' H. unfold flatten0. cbn [flat_map flat_item]. rewrite !app_nil_r.
+  unfold sim. intros n a a' H. unfold flatten0. cbn [flat_map flat_item]. rewrite !app_nil_r.
   apply fuse_rep_app_congr. exact H.
 Qed.
 
-Lemma simc_embed_fuse : forall l, simc (embed (fuse l)) (embed l).
-Proof. intro l. unfold simc. rewrite !flatten0_embed. apply fuse_idem. Qed.
+Lemma simc_embed_fuse : forall l, sim (embed (fuse l)) (embed l).
+Proof. intro l. unfold sim. rewrite !flatten0_embed. apply fuse_idem. Qed.
 
 (* csnoc: append with merging *)
 Lemma rev_cons_inv : forall {A} (c : list A) y r, rev c = y :: r -> c = rev r ++ [y].
 Proof. intros A c y r H. rewrite <- (rev_involutive c), H. reflexivity. Qed.
 
-Lemma csnoc_sim : forall c x Y, fuse (flatten0 (csnoc c x) ++ Y) = fuse (flatten0 c ++ flat_item x ++ Y).
+Lemma csnoc_fuse : forall c x Y, fuse (flatten0 (csnoc c x) ++ Y) = fuse (flatten0 c ++ flat_item x ++ Y).
 Proof.
   intros c x Y. unfold csnoc.
   destruct x as [i|n b].
@@ -230,26 +229,26 @@ Proof.
   - rewrite flatten0_app. rewrite <- app_assoc. cbn [flatten0 flat_map]. rewrite app_nil_r. reflexivity.
 Qed.
 
-Lemma csnoc_simc : forall c x, simc (csnoc c x) (c ++ [x]).
+Lemma csnoc_simc : forall c x, sim (csnoc c x) (c ++ [x]).
 Proof.
-  intros c x. unfold simc. pose proof (csnoc_sim c x []) as H. rewrite !app_nil_r in H.
+  intros c x. unfold sim. pose proof (csnoc_fuse c x []) as H. rewrite !app_nil_r in H.
   rewrite H. rewrite flatten0_app. cbn [flatten0 flat_map]. rewrite app_nil_r. reflexivity.
 Qed.
 
-Lemma stim_iadd_simc : forall a b, simc (stim_iadd a b) (a ++ b).
+Lemma stim_iadd_simc : forall a b, sim (stim_iadd a b) (a ++ b).
 Proof.
   intros a [|x r]; unfold stim_iadd.
   - rewrite app_nil_r. apply simc_refl.
-  - unfold simc. rewrite flatten0_app. rewrite csnoc_sim. rewrite flatten0_app. reflexivity.
+  - unfold sim. rewrite flatten0_app. rewrite csnoc_fuse. rewrite flatten0_app. reflexivity.
 Qed.
 
-Lemma stim_mul_simc : forall n a, (0 <= n)%Z -> simc (stim_mul n a) [Rep (Z.to_nat n) a].
+Lemma stim_mul_simc : forall n a, (0 <= n)%Z -> sim (stim_mul n a) [Rep (Z.to_nat n) a].
 Proof.
   intros n a Hn. unfold stim_mul.
   destruct (n =? 0)%Z eqn:E0.
   - apply Z.eqb_eq in E0. subst n. reflexivity.
   - destruct (n =? 1)%Z eqn:E1.
-    + apply Z.eqb_eq in E1. subst n. unfold simc. change (Z.to_nat 1) with 1.
+    + apply Z.eqb_eq in E1. subst n. unfold sim. change (Z.to_nat 1) with 1.
       unfold flatten0 at 2. cbn [flat_map flat_item rep_app]. rewrite !app_nil_r. reflexivity.
     + apply simc_refl.
 Qed.
@@ -353,7 +352,7 @@ Proof.
   cbn [embed map fold_left]. fold (embed l). rewrite IH.
   change (wnl (i :: l)) with ((match wn_instr i with Some x => [x] | None => [] end) ++ wnl l).
   cbn [wn_item]. destruct (wn_instr i) as [j|]; cbn [option_map].
-  - rewrite csnoc_sim. cbn [flat_item]. rewrite <- !app_assoc. reflexivity.
+  - rewrite csnoc_fuse. cbn [flat_item]. rewrite <- !app_assoc. reflexivity.
   - reflexivity.
 Qed.
 
@@ -462,9 +461,9 @@ Qed.
 Lemma flattened_l_noshift : forall c, noshift c = true -> flattened_l c = fuse (flatten0 c).
 Proof. intros c H. unfold flattened_l. rewrite (flat_sh_noshift c H). reflexivity. Qed.
 
-Lemma flattened_simc : forall c, noshift c = true -> simc (flattened c) c.
+Lemma flattened_simc : forall c, noshift c = true -> sim (flattened c) c.
 Proof.
-  intros c H. unfold simc, flattened. rewrite flatten0_embed. rewrite (flattened_l_noshift c H). apply fuse_idem.
+  intros c H. unfold sim, flattened. rewrite flatten0_embed. rewrite (flattened_l_noshift c H). apply fuse_idem.
 Qed.
 
 Lemma is_flat_flattened : forall c, is_flat (flattened c) = true.
@@ -487,12 +486,12 @@ Proof.
   rewrite fuse_cons, forallb_name_cons_fuse. cbn [forallb]. rewrite IH. reflexivity.
 Qed.
 
-Lemma noshift_simc : forall a b, simc a b -> noshift a = noshift b.
+Lemma noshift_simc : forall a b, sim a b -> noshift a = noshift b.
 Proof.
   intros a b H. unfold noshift, is_shift.
   rewrite <- (forallb_name_fuse (fun n => negb (String.eqb n "SHIFT_COORDS")) (flatten0 a)).
   rewrite <- (forallb_name_fuse (fun n => negb (String.eqb n "SHIFT_COORDS")) (flatten0 b)).
-  unfold simc in H. rewrite H. reflexivity.
+  unfold sim in H. rewrite H. reflexivity.
 Qed.
 
 (* ---- counters ----------------------------------------------------------------------------------------- *)
@@ -592,8 +591,8 @@ Proof. intros f c. induction c as [|x c IH]; [reflexivity|]. rewrite flatten0_co
 Lemma counts_c_flat : forall c, counts_c c = counts_l (flatten0 c).
 Proof. intro c. unfold counts_c, counts_l. rewrite !sum_c_flat, !max_c_flat. reflexivity. Qed.
 
-Lemma counts_simc : forall a b, simc a b -> counts_c a = counts_c b.
+Lemma counts_simc : forall a b, sim a b -> counts_c a = counts_c b.
 Proof.
   intros a b H. rewrite !counts_c_flat. rewrite <- (counts_l_fuse (flatten0 a)), <- (counts_l_fuse (flatten0 b)).
-  unfold simc in H. rewrite H. reflexivity.
+  unfold sim in H. rewrite H. reflexivity.
 Qed.
